@@ -376,6 +376,9 @@ impl<'tcx> Cx<'tcx> {
         o.set("local", J::Bool(d.is_local()));
         if let Some(k) = self.keys.get(&d) {
             o.set("key", J::s(k.clone()));
+        } else if d.is_local() && matches!(tcx.def_kind(d), DefKind::AssocFn | DefKind::Fn) {
+            // required trait methods have no body but still get a name
+            o.set("key", J::s(self.make_key(d)));
         }
         o.set(
             "args",
